@@ -1,7 +1,7 @@
 """C09 -- small dense eigen-decompositions: iteration cap => exception, exact real / conjugate-pair conventions."""
 from .facts import AnalysisBroken
 from . import paths
-from .sym import sym, show
+from .sym import sym, show, atoms
 
 EXPLANATION = (
     'Path and sign-domain rules over the CFGs of the instantiated TridiagEigen, UpperHessenbergSchur and UpperHessenbergEigen. '
@@ -19,7 +19,7 @@ EXPLANATION = (
     '0..iu inclusive) in the same branch -- necessary for the result to be similar to H itself; (D5) every division by the '
     'input scale (largest magnitude, zero for the zero matrix) is unreachable when the scale is zero; (D6) the norm whose vanishing '
     'triggers the zero-matrix short cut of the Schur class covers every entry of a Hessenberg matrix, sub-diagonal included. '
-    'Does NOT decide backward stability, orthogonality of Z / U, or unit norm of eigenvectors (floating-point magnitudes).')
+    'The divisor that normalises the input of the tridiagonal and Hessenberg eigen-solvers, evaluated as an expression over its maxCoeff() operands on a magnitude grid 1e-150 .. 1e150, returns the largest magnitude (the deflation tests are not homogeneous: they are relative only on a matrix of largest magnitude one). Does NOT decide backward stability, orthogonality of Z / U, or unit norm of eigenvectors (floating-point magnitudes).')
 ASSUMPTIONS = ['sqrt and abs return non-negative values; conversion of a real to std::complex sets the imaginary part to +0']
 
 
@@ -323,13 +323,17 @@ def scale_divisors_guarded(ctx, rule='scale-divisor-guarded'):
                 continue
             seen.add(fn.mangled)
             scales = {}
+            positive = set()        # scales bounded below by a positive literal: never zero
             for x in fn.walk():
                 if x['k'] == 'DeclStmt':
                     for d in x['decls']:
                         if 'init' in d and 'var' in d:
-                            t = show(sym(fn, d['init'], inline=False))
+                            t = show(sym(fn, d['init']))
                             if 'maxCoeff' in t and fn.locals[d['var']]['type'].replace('const ', '') in ('double', 'float', 'long double'):
                                 scales[d['var']] = fn.locals[d['var']]['name']
+                                ts = sym(fn, d['init'])
+                                if ts[0] == 'call' and ts[1] == 'max' and any(u[0] == 'lit' and float(u[1]) > 0 for u in ts[2:] if isinstance(u, tuple)):
+                                    positive.add(d['var'])
             for v, nm in scales.items():
                 divs = []
                 for x in fn.walk():
@@ -341,6 +345,9 @@ def scale_divisors_guarded(ctx, rule='scale-divisor-guarded'):
                 if not divs:
                     continue
                 n += 1
+                if v in positive:
+                    ctx.ok(rule, '%s::compute/%s' % (cls.replace('Spectra::', ''), nm), fn.qname, 'the scale is bounded below by a positive literal: never zero')
+                    continue
                 guards = []
                 for i in fn.walk():
                     if i['k'] == 'IfStmt' and any(y['k'] == 'DeclRefExpr' and y.get('var') == v for y in fn.walk(i['cond'])):
@@ -371,6 +378,86 @@ def scale_divisors_guarded(ctx, rule='scale-divisor-guarded'):
                           'division by the input scale `%s` without a zero test: for the zero matrix `%s` is 0/0 = NaN and the iteration runs on NaNs until its cap' % (nm, bad[0]))
     if n < 2:
         raise AnalysisBroken('only %d scaled decompositions found (TridiagEigen and UpperHessenbergEigen confirmed)' % n)
+
+
+def scale_is_largest_magnitude(ctx, rule='input-normalised-to-unit-magnitude'):
+    """The tridiagonal and Hessenberg eigen-solvers run their sweeps on input / scale.  Their deflation tests are not homogeneous
+    (|e| <= eps * sqrt(|d_i| + |d_i+1|), absolute floors), so they mean "negligible relative to the matrix" only if the scaled
+    matrix has largest magnitude exactly one: the divisor must BE the largest magnitude of the entries, for small-norm input as
+    well as for large (the property quantifies over scalings down to 1e-150).  The divisor's defining expression is extracted
+    (locals inlined) and evaluated with its maxCoeff() leaves set to magnitudes between 1e-150 and 1e150: it must return their
+    maximum every time."""
+    n = 0
+    for cls in ('Spectra::TridiagEigen', 'Spectra::UpperHessenbergEigen'):
+        seen = set()
+        for fn in ctx.F.concrete():
+            if fn.cls != cls or not fn.cfg or fn.mangled in seen or fn.name != 'compute':
+                continue
+            seen.add(fn.mangled)
+            inst = '%s::compute' % cls.replace('Spectra::', '')
+            # divisions  <field> = <input expression> / S
+            divisors = {}
+            for x in fn.walk():
+                if x['k'] in ('BinaryOperator', 'CXXOperatorCallExpr') and x.get('op') == '/':
+                    ops = fn.call_args(x) if x['k'] == 'CXXOperatorCallExpr' else [fn.nodes[c] for c in x['c']]
+                    num = show(sym(fn, ops[0], inline=False)) if ops else ''
+                    r = fn.strip(ops[-1]) if ops else None
+                    if r is not None and r['k'] == 'DeclRefExpr' and 'var' in r and ('P', fn.locals[fn.params[0]]['name']) in atoms(sym(fn, ops[0], inline=False)):
+                        divisors[r['var']] = fn.locals[r['var']]['name']
+            if not divisors:
+                raise AnalysisBroken('%s: no division of the input by a scale found' % fn.qname)
+            for v, nm in sorted(divisors.items()):
+                init = [d['init'] for x in fn.walk() if x['k'] == 'DeclStmt' for d in x['decls'] if d.get('var') == v and 'init' in d]
+                if len(init) != 1:
+                    raise AnalysisBroken('%s: scale %s has %d initialisers' % (fn.qname, nm, len(init)))
+                t = sym(fn, init[0])
+                leaves = []
+
+                def collect(u):
+                    if isinstance(u, tuple):
+                        if u[0] == 'maxCoeff' or (u[0] == 'call' and u[1] == 'maxCoeff'):
+                            if u not in leaves:
+                                leaves.append(u)
+                            return
+                        for w in u[1:]:
+                            collect(w)
+                collect(t)
+                if not leaves:
+                    raise AnalysisBroken('%s: scale %s = %s has no maxCoeff() operand' % (fn.qname, nm, show(t)[:80]))
+
+                def evs(u, env):
+                    if u in env:
+                        return env[u]
+                    if u[0] == 'lit':
+                        return float(u[1])
+                    if u[0] == 'call' and u[1] in ('max', 'min') and len(u) == 4:
+                        a, b = evs(u[2], env), evs(u[3], env)
+                        return max(a, b) if u[1] == 'max' else min(a, b)
+                    if u[0] == 'call' and u[1] == 'abs' and len(u) == 3:
+                        return abs(evs(u[2], env))
+                    if u[0] in ('+', '*') :
+                        vals = [evs(w, env) for w in u[1:]]
+                        out = vals[0]
+                        for w in vals[1:]:
+                            out = out + w if u[0] == '+' else out * w
+                        return out
+                    raise AnalysisBroken('%s: scale %s: term %s outside the evaluable fragment' % (fn.qname, nm, show(u)[:60]))
+                grid = (1e-150, 1e-30, 1e-6, 0.5, 1.0, 2.0, 1e6, 1e30, 1e150)
+                bad = None
+                import itertools
+                for vals in itertools.product(grid, repeat=len(leaves)):
+                    got = evs(t, dict(zip(leaves, vals)))
+                    if got != max(vals) and bad is None:
+                        bad = (vals, got)
+                n += 1
+                ctx.check(bad is None, rule, '%s/%s' % (inst, nm), fn.qname,
+                          'the divisor `%s` equals the largest of its %d magnitude operand(s) on the whole grid 1e-150 .. 1e150: the sweeps run on a matrix of largest magnitude one' % (nm, len(leaves))
+                          if bad is None else
+                          'with largest magnitudes %s the input is divided by %g, not by %g: the sweeps then run on an un-normalised matrix and the non-homogeneous deflation tests '
+                          '(eps * sqrt(|d_i| + |d_i+1|), absolute floors) are no longer relative to it -- sub-diagonal entries of a small-norm matrix are discarded although they are not negligible' %
+                          (bad[0], bad[1], max(bad[0])))
+    if n < 2:
+        raise AnalysisBroken('only %d input scalings analysed (TridiagEigen and UpperHessenbergEigen confirmed)' % n)
 
 
 def zero_test_covers_hessenberg(ctx, rule='zero-matrix-test-covers-all-entries'):
@@ -474,6 +561,7 @@ def _walk(t):
 
 
 def run(ctx):
+    scale_is_largest_magnitude(ctx)
     scale_divisors_guarded(ctx)
     zero_test_covers_hessenberg(ctx)
     cap_implies_throw(ctx)
